@@ -50,7 +50,7 @@ ASSUMPTIONS = [
     "all instants are multiples of 1/64 s (exact in binary floating point); 'exactly' means equality of virtual-clock readings",
     "simultaneous events (a telegram arriving at the very instant a reset or context deadline expires) may be served in either order: the report of the expiring deadline is optional there, a Switch's state is not asserted until its next event, but every report that is made must carry the right time and counter",
     "an 'off' telegram before the deadline: the statement does not say whether the timer is cancelled; a redundant 'off' report at last-'on' + reset_after is tolerated (counted in notes), a missing one too",
-    "counter clauses are asserted for GroupValueWrite telegrams only (the device counts only writes when the state does not change); GroupValueResponse telegrams are used for the reset clauses",
+    "BinarySensor is driven with GroupValueWrite telegrams only: it deliberately ignores a GroupValueResponse that does not change the value last seen on the bus (so an 'on' response after a timed reset neither sets the state nor starts the timer) and the statement is silent on state-sync answers; Switch is driven with writes and responses",
     "mixed-state bursts and devices with both reset_after and context_timeout: only report timing (both reports at the close instant, second with counter 0), state samples and absence of exceptions are asserted",
     "rate limit 0; sync_state off (no GroupValueRead traffic); device driven either through the cEMI receive path + telegram queue or by Device.process() directly (as xknx.devices.process and the unit tests do)",
 ]
@@ -269,7 +269,8 @@ def judge(ctx, case, obs) -> None:
                 if tt not in off_times and tt not in allowed:
                     ctx.fail(f"C42:reset-time:{dev}", inp, f"'off' reported at t={tt}/64 s; reset_after={R}/64 s, 'on' telegrams at {sorted(on_times)}, allowed reset instants {sorted(allowed)}")
         for D in sorted(required - ties):
-            if D not in cb_off:
+            # Switch: the report is the reset telegram (below); its callback only fires on a state change
+            if D not in cb_off and not is_switch:
                 ctx.fail(f"C42:reset-missing:{dev}", inp, f"no 'off' report at t={D}/64 s (last 'on' + reset_after); callbacks {[(ticks(t), s) for t, s, _ in obs['cb']]}")
         if is_switch:
             sent_at = set()
@@ -395,7 +396,7 @@ def _gapset(th):
     return [0, th // 2, th - 1, th, th + 1, 2 * th]
 
 
-def _enum_shard(ctx, dev, mode, L, first_gap_i) -> None:
+def _enum_shard(ctx, dev, mode, Lmax) -> None:
     th = 64
     cfg = _config(dev, th, 32, False, False, mode)
     gaps = _gapset(th)
@@ -403,18 +404,18 @@ def _enum_shard(ctx, dev, mode, L, first_gap_i) -> None:
     # settle flags: the bus mode settles after every step (deadline served before a tie),
     # the direct mode never settles between steps (telegram served before a tie)
     s = mode == "bus"
-    n = nt = 0
-    for gs in itertools.product(gaps, repeat=max(L - 2, 0)):
-        allg = (0,) if L == 1 else (0, gaps[first_gap_i], *gs)
-        for ks in itertools.product(kinds, repeat=L):
-            case = dict(cfg, steps=[[g, s, k, s] for g, k in zip(allg, ks)])
-            check_case(ctx, case)
-            n += 1
-            if classify(case)[0]:
-                nt += 1
-            if n % 97 == 1:
-                ctx.sample(case)
-    ctx.bulk(n, nt, f"enum-{dev}-{mode}-L{L}")
+    for L in range(1, Lmax + 1):
+        n = nt = 0
+        for gs in itertools.product(gaps, repeat=L - 1):
+            for ks in itertools.product(kinds, repeat=L):
+                case = dict(cfg, steps=[[g, s, k, s] for g, k in zip((0, *gs), ks)])
+                check_case(ctx, case)
+                n += 1
+                if classify(case)[0]:
+                    nt += 1
+                if n % 197 == 1:
+                    ctx.sample(case)
+        ctx.bulk(n, nt, f"enum-{dev}-{mode}-L{L}")
 
 
 @st.composite
@@ -425,7 +426,7 @@ def cases(draw):
     cfg = _config(dev, th, th2, draw(st.booleans()), draw(st.booleans()), draw(st.sampled_from(["bus", "direct"])))
     ths = sorted({x for x in (cfg.get("R"), cfg.get("T")) if x})
     gapvals = sorted({g for t in ths for g in _gapset(t)} | {1, 2})
-    kinds = ["on", "off"] if dev in ("bs_ctx",) else (["on", "on", "off", "ron", "roff"] if dev != "bs_both" else ["on", "off"])
+    kinds = ["on", "on", "off", "ron", "roff"] if dev == "switch" else ["on", "off"]
     if dev == "bs_ctx" and draw(st.booleans()):
         kinds = [draw(st.sampled_from(["on", "off"]))]  # pure runs
     n = draw(st.integers(1, 10))
@@ -449,15 +450,8 @@ def _hyp_shard(ctx, n: int) -> None:
 
 def run(ctx) -> None:
     Lmax = ctx.n(3, 4)
-    jobs = []
-    for dev in DEVS:
-        for mode in ("bus", "direct"):
-            jobs.append((dev, mode, 1, 0))
-            for L in range(2, Lmax + 1):
-                for fg in range(6):
-                    jobs.append((dev, mode, L, fg))
-    parallel(ctx, _enum_shard, jobs)
-    parallel(ctx, _hyp_shard, [(ctx.n(150, 2500),)] * 16)
+    parallel(ctx, _enum_shard, [(dev, mode, Lmax) for dev in DEVS for mode in ("bus", "direct")], procs=8)
+    parallel(ctx, _hyp_shard, [(ctx.n(300, 5000),)] * 8, procs=8)
     ctx.notes["exhaustive_up_to_telegrams"] = Lmax
     ctx.exhaustive = False
 
